@@ -134,6 +134,10 @@ def tasks(tier):
         cfg = dict(M=M, alphabet=["ok", "x:T", "r:T"] if rcf else ["ok", "x:T"], ok_awaitable=True,
                    max_unknown=None, force_rc=rcf, sleeper="call")
         out.append({"family": "outcome-awaitable-value", "cfg": cfg, "entry": e, "bound": 1})
+    # an ordinary failure raised `from` a nested policy's RetryExhaustedError is an ordinary failure
+    for M, e in itertools.product([1, 2, 3], ENTRIES):
+        cfg = dict(M=M, alphabet=["ok", "xqn:T", "xqn:P", "x:T", "r:T"], max_unknown=None)
+        out.append({"family": "outcome-chained-exhaustion", "cfg": cfg, "entry": e, "bound": 0})
     # the sync attempt timeout on the library's REAL threads: the attempt that overran finishes
     # late (during the backoff sleep, after the next attempt has started, or after the call)
     late = ["ok", "x:T"] if tier == "quick" else ["ok", "x:T", "r:T"]
